@@ -14,10 +14,12 @@ package pc17
 // Readings (weaker one taken where the statement is ambiguous):
 //   - "default clone operations" = clone.{Plan,Block,Sequence,Checks,Action} without WithKeepSecrets. WithKeepState is
 //     included: its doc comment says it keeps "IDs, output, etc." for display; nothing in it keeps secrets, and the
-//     package's own tests expect secrets to be hidden under WithKeepState alone. WithRemoveCompletedSequences is not used.
+//     package's own tests expect secrets to be hidden under WithKeepState alone. WithRemoveCompletedSequences (stored plans only) is
+//     judged for the leak clause and "original intact" only, objects being legitimately removed under it.
 //   - "the original plan [is] left intact" is asserted for the clone operations only. reports.Render documents that it
 //     "may alter the Plan object to eliminate Request and Response fields ... marked secure", so for Render only the
-//     clause "untagged data ... left intact" is asserted (untagged canaries still in the caller's plan and in the report).
+//     clause "untagged data ... left intact" is asserted (untagged canaries still in the caller's plan). What a report
+//     prints of the untagged data is not in the statement: untagged canaries found in report files are only counted.
 //   - A panic inside clone / Render produces no output and therefore leaks nothing: counted under a label, no violation.
 
 import (
@@ -637,11 +639,8 @@ func judgeRender(f *failer, res *vprop.Result, lc *LeakCase) {
 	}
 
 	after := scanAny(rp.plan)
+	foundUntagged, missingUntagged := 0, 0
 	for _, c := range rp.canaries {
-		where := "req"
-		if rp.carriers[c.Carrier].isResp {
-			where = "resp"
-		}
 		if c.Secret {
 			// (4) "... nor in any file of a rendered HTML report"
 			if name := inFiles(c); name != "" {
@@ -649,14 +648,28 @@ func judgeRender(f *failer, res *vprop.Result, lc *LeakCase) {
 			}
 			continue
 		}
-		// "while untagged data ... [is] left intact": still in the caller's plan, and shown in the report
+		// "while untagged data ... [is] left intact": still in the caller's plan
 		if !after.has(c) {
 			f.fail("C17/render-untagged-lost-in-plan:"+pathClass(c.Path), "reports.Render removed untagged canary %v (%s) from the plan it was given", c, describe(c, rp))
 		}
-		if encodable[c.Carrier] && inFiles(c) == "" {
-			f.fail("C17/report-untagged-missing:"+pathClass(c.Path), "reports.Render: untagged canary %v (%s) occurs in no report file although the action template prints the %s", c, describe(c, rp), where)
+		// What a report prints is not part of the statement (it may leave responses out, summarise blobs, ...): an
+		// untagged value that is not shown is NO violation. The untagged canaries that ARE found are counted, as
+		// evidence that the text scan can see planted values at all; conf/C17.json puts a floor on the label so that a
+		// scan that sees nothing makes the run INCONCLUSIVE instead of green.
+		if inFiles(c) != "" {
+			foundUntagged++
+		} else if encodable[c.Carrier] {
+			missingUntagged++
 		}
 	}
+	if foundUntagged > 0 {
+		res.Label("report:untagged-canary-found")
+	}
+	if missingUntagged > 0 {
+		res.Label("report:untagged-canary-not-shown")
+	}
+	vprop.Count("report_untagged_canaries_found", int64(foundUntagged))
+	vprop.Count("report_untagged_canaries_not_shown", int64(missingUntagged))
 }
 
 func allActions(p *workflow.Plan) []*workflow.Action {
